@@ -130,6 +130,33 @@ def sql_rules(ctx, crate, self_ty, clock, tag, rule='C13.R1'):
     return per, n_sql
 
 
+def _success_targets(b, derived, checks):
+    """blocks entered when the statement execution succeeded: the Ok arm of a `match` on its Result, or the Continue arm of `?` applied to it
+    (switches that already sit behind the row-count check are the check's own, and `?` inside the Err arm of a match on the execution
+    result examines the error, not the outcome: both are skipped)"""
+    out = []
+    err_regions = set()
+    switches = []
+    for sb in b.live_blocks():
+        t = b.term(sb)
+        if not t or t['k'] != 'switch' or 'enum' not in t or t['src']['l'] not in derived:
+            continue
+        if any(b.dominates(c, sb) for c in checks):
+            continue
+        switches.append((sb, t, strip_generics(t['enum'])))
+    for sb, t, e in switches:
+        if e == 'core::result::Result':
+            oks = [tg for n, tg in t['ts'] if n == 'Ok']
+            errs = [tg for n, tg in t['ts'] if n == 'Err'] + ([t['else']] if 'Err' in t.get('rest', []) else [])
+            out += oks
+            for et in errs:
+                err_regions |= b.reachable(et, avoid=oks)
+    for sb, t, e in switches:
+        if e == 'core::ops::control_flow::ControlFlow' and sb not in err_regions:
+            out += [tg for n, tg in t['ts'] if n == 'Continue']
+    return out
+
+
 def r1_sqlite(ctx):
     ctx.rule('C13.R1', 'P9 constant tables: the SQL constant of every SQLite load/update/update_ttl/delete/change_id filters on '
              '`id = ?` AND the single liveness predicate `deadline > unixepoch()`; create\'s replace-on-conflict predicate is '
@@ -152,11 +179,7 @@ def r1_sqlite(ctx):
             unk = [bb for bb, t in b.calls() if callee(t) == 'pavex_session_sqlx::sqlite::as_unknown_id_error']
             # Ok arm: the switch on the awaited Result
             derived = forward_derived(b, {b.term(execs[0])['dest']['l']}, through_calls=True)
-            ok_targets = []
-            for sb in b.live_blocks():
-                t = b.term(sb)
-                if t and t['k'] == 'switch' and strip_generics(t.get('enum', '')) == 'core::result::Result' and t['src']['l'] in derived:
-                    ok_targets += [tg for n, tg in t['ts'] if n == 'Ok']
+            ok_targets = _success_targets(b, derived, unk)
             rets = set(b.return_blocks())
             bad = False
             for tg in ok_targets:
@@ -174,11 +197,7 @@ def r1_sqlite(ctx):
                 continue
             rows = [bb for bb, t in b.calls() if (callee(t) or '').endswith('QueryResult::rows_affected') or (callee(t) or '').endswith('::rows_affected')]
             derived = forward_derived(b, {b.term(execs[0])['dest']['l']}, through_calls=True)
-            ok_targets = []
-            for sb in b.live_blocks():
-                t = b.term(sb)
-                if t and t['k'] == 'switch' and strip_generics(t.get('enum', '')) == 'core::result::Result' and t['src']['l'] in derived:
-                    ok_targets += [tg for n, tg in t['ts'] if n == 'Ok']
+            ok_targets = _success_targets(b, derived, rows)
             rets = set(b.return_blocks())
             unchecked = any(body_reaches(b, tg, rets, avoid=rows) for tg in ok_targets)
             ctx.ob('C13.R1', 'sqlite|create|zero-rows-is-duplicate-id', bool(ok_targets) and bool(rows) and not unchecked, b.loc(execs[0]),
@@ -254,7 +273,7 @@ RAW_ALLOWED = {
 
 def r3_memory(ctx):
     ctx.rule('C13.R3', 'P3/P1 in-memory store: (a) every raw HashMap access is one of the enumerated, reasoned sites; the two '
-             'guarded accessors return Ok only on the not-stale branch; (b) fail-atomic: no path on which the map was mutated '
+             'guarded accessors, evaluated abstractly for present/absent x stale/fresh, return Ok exactly for a present and fresh record; (b) fail-atomic: no path on which the map was mutated '
              'reaches the construction of an Err result (except the propagation of the mutating helper\'s own failure); '
              '(c) create/change_id insert only after the freshness test / after _delete; (d) is_stale and delete_expired compare '
              '`deadline <= now` in the same direction.')
@@ -273,26 +292,50 @@ def r3_memory(ctx):
                        'HashMap::%s in %s: %s' % (meth, b.nroot, RAW_ALLOWED[hit[0]] if hit else
                                                    'NOT an enumerated access site (new unguarded access to the session map)'))
     ctx.floor('C13.R3', 'raw HashMap access sites in the in-memory store', n_raw, 6)
+    from ..absint_std import StdSem, TagInterp
+
+    class _AccessorSem(StdSem):
+        crate = MS
+
+        def __init__(self, fb, present, stale):
+            super().__init__(fb)
+            self.present, self.stale = present, stale
+
+        def domain_call(self, interp, path, body, bb, term, short):
+            d = term.get('dest')
+            dk = (body.id, d['l']) if d is not None and not d.get('p') else None
+            if short.startswith('std::collections::hash::map::HashMap::') and short.split('::')[-1] in ('get', 'get_mut', 'remove') and dk is not None:
+                path.alias.pop(dk, None)
+                path.memo.pop(dk, None)
+                path.tags[dk] = 'opt:Some' if self.present else 'opt:None'
+                return [('next', path)]
+            if short == 'pavex_session_memory_store::StoreRecord::is_stale' and dk is not None:
+                path.alias.pop(dk, None)
+                path.tags.pop(dk, None)
+                path.memo[dk] = self.stale
+                return [('next', path)]
+            return None
+
     for fn in ('get_mut_if_fresh', '_delete'):
         b = ctx.need('C13.R3', 'InMemorySessionStore::' + fn, ctx.fb.body(MS, 'pavex_session_memory_store::InMemorySessionStore::' + fn))
         if b is None:
             continue
-        stale = [(bb, t) for bb, t in b.calls() if callee(t) == 'pavex_session_memory_store::StoreRecord::is_stale']
-        oks = [bb for bb, j, st in b.all_assigns() if st['rv']['k'] == 'agg' and st['rv'].get('var') == 'Ok'
-               and strip_generics(st['rv'].get('adt', '')) == 'core::result::Result']
-        good = False
-        if stale and oks:
-            sbb, st = stale[0]
-            dl = st['dest']['l']
-            # the switch on is_stale's result: Ok must be reachable only through the 0 (false) edge
-            for wb in b.live_blocks():
-                w = b.term(wb)
-                if w and w['k'] == 'switch' and op_place(w['d']) and op_place(w['d'])['l'] in forward_derived(b, {dl}):
-                    false_t = [tg for v, tg in w['ts'] if v == '0']
-                    true_t = w['else']
-                    good = all(b.dominates(sbb, o) for o in oks) and not any(o in b.reachable(true_t, avoid=false_t) for o in oks)
+        good = True
+        detail = []
+        for present in (True, False):
+            for stale in (True, False):
+                sem = _AccessorSem(ctx.fb, present, stale)
+                outs = TagInterp(sem).run(b, {})
+                got = sorted({str(p.tags.get((b.id, 0))) if oc == 'return' else 'panic' for oc, p, *_ in outs})
+                want = 'res:Ok' if (present and not stale) else 'res:Err'
+                if not present:
+                    # is_stale is not evaluated on an absent record: both `stale` cases must agree
+                    pass
+                if got != [want]:
+                    good = False
+                detail.append('%s/%s->%s' % ('present' if present else 'absent', 'stale' if stale else 'fresh', ','.join(g.replace('res:', '') for g in got)))
         ctx.ob('C13.R3', 'guarded-accessor|%s' % fn, good, b.loc(),
-               'Ok(record) is constructed only on the is_stale()==false branch, and is_stale() dominates it')
+               'evaluated for record present/absent x stale/fresh (Option/Result algebra, closures included): Ok exactly when present and fresh [%s]' % ' '.join(detail))
     # (b) fail-atomic + (c) ordering
     for m in METHODS:
         bodies = impl_method_bodies(ctx, MS, 'pavex_session_memory_store::InMemorySessionStore', m)
